@@ -92,8 +92,8 @@ void v_alloc_note(u8* p) { u32 n = v_alloc_n; if (n < 64) v_alloc_t0[n] = p; els
 void v_alloc_order_reset(void) { v_alloc_n = 0; }   /* harness: call at the start of a selector-dispatched case (keeps the counter concrete) */
 #define V_RK1(T, base, k) if ((base) + (k) < n) { if (ra == V_ALLOC_MAX && __CPROVER_same_object(a, T[k])) ra = (base) + (k); if (rb == V_ALLOC_MAX && __CPROVER_same_object(b, T[k])) rb = (base) + (k); }
 #define V_RK4(T, base, k) V_RK1(T, base, k) V_RK1(T, base, (k) + 1) V_RK1(T, base, (k) + 2) V_RK1(T, base, (k) + 3)
-#define V_RK16(T, base, k) V_RK4(T, base, k) V_RK4(T, base, (k) + 4) V_RK4(T, base, (k) + 8) V_RK4(T, base, (k) + 12)
-#define V_RK64(T, base) V_RK16(T, base, 0) V_RK16(T, base, 16) V_RK16(T, base, 32) V_RK16(T, base, 48)
+#define V_RK16(T, base, k) if ((base) + (k) < n) { V_RK4(T, base, k) V_RK4(T, base, (k) + 4) V_RK4(T, base, (k) + 8) V_RK4(T, base, (k) + 12) }
+#define V_RK64(T, base) if ((base) < n) { V_RK16(T, base, 0) V_RK16(T, base, 16) V_RK16(T, base, 32) V_RK16(T, base, 48) }
 u1 v_plt(u8* a, u8* b) {
   if (__CPROVER_same_object(a, b)) return a < b;
   u32 n = v_alloc_n, ra = V_ALLOC_MAX, rb = V_ALLOC_MAX;
